@@ -380,6 +380,10 @@ class PDFStandardSecurityHandler:
         if self.r not in self.supported_revisions:
             error_msg = "Unsupported revision: param=%r" % self.param
             raise PDFEncryptionError(error_msg)
+        if self.r >= 3 and self.length < 8:
+            # revision 3 and later use length // 8 bytes of key
+            error_msg = "Unsupported key length: param=%r" % self.param
+            raise PDFEncryptionError(error_msg)
         self.init_key()
 
     def init_params(self) -> None:
